@@ -103,7 +103,7 @@ def generate(tier, rng):
 
 
 def _generate_base(tier, rng):
-  reps = {'quick': 6, 'thorough': 16, 'search': 16}[tier]
+  reps = {'quick': 5, 'thorough': 16, 'search': 16}[tier]
   for name in ALGS + AGGS:
     for hp in _hp_grid(name, tier, rng):
       for i in range(reps):
